@@ -16,6 +16,7 @@ mod c07;
 mod c11;
 mod c18;
 mod c08;
+mod c14;
 
 use ctx::{Ctx, Tier};
 
@@ -78,6 +79,7 @@ fn main() {
         "C20" => c20::run(&mut ctx),
         "C16" => c16::run(&mut ctx),
         "C08" => c08::run(&mut ctx),
+        "C14" => c14::run(&mut ctx),
         _ => {
             eprintln!("unknown property {}", prop);
             std::process::exit(2);
